@@ -283,6 +283,14 @@ impl<'tcx> HirX<'tcx> {
                             if matches!(kind, DefKind::AssocFn) {
                                 o = o.opt("resolved", self.resolve_instance(did, args).map(J::S));
                             }
+                            if matches!(kind, DefKind::Const { .. }) && args.is_empty() {
+                                // value of a (possibly external) scalar constant, e.g. FRAME_MIN_SIZE
+                                if let Ok(rustc_middle::mir::ConstValue::Scalar(sc)) = self.tcx.const_eval_poly(did) {
+                                    if let Ok(si) = sc.try_to_scalar_int() {
+                                        o = o.fs("bits", si.to_bits(si.size()).to_string());
+                                    }
+                                }
+                            }
                         }
                     }
                     other => {
